@@ -1,6 +1,8 @@
 (** C14 — Generated dictionary files are the exact image of the trained model (PARTIAL). *)
-From Coq Require Import QArith Qabs ZArith.
-From Vib Require Import Proofs.TrainProofs.
+From Coq Require Import QArith Qabs ZArith Reals List.
+From Flocq Require Import Core IEEE754.BinarySingleNaN.
+From Vib Require Import Proofs.TrainProofs Model.Float Proofs.FloatProofs.
+Import ListNotations.
 
 (** cost w = trunc(-w x scale): a higher model score gives a lower (or equal) cost *)
 Theorem c14_cost_antitone : forall scale w1 w2, 0 < scale -> w1 <= w2 -> (cost scale w2 <= cost scale w1)%Z.
@@ -13,9 +15,34 @@ Proof. exact cost_in_i16. Qed.
 Theorem c14_trunc_mono : forall a b, a <= b -> (qtrunc a <= qtrunc b)%Z.
 Proof. exact qtrunc_mono. Qed.
 
+(** ** the same statements about the binary64 computation the code performs
+    ([f64_cost sc w] = [((-w) * sc) as i16], [f64_scale ws] = [32767.0 / max |w|], Flocq's IEEE-754 operations;
+    the check of every run evaluates exactly these functions against the emitted files) *)
+(** the cost is the saturated truncation of the correctly rounded product of the real numbers the floats denote *)
+Theorem c14_f64_cost_real : forall sc w : f64, is_finite sc = true -> is_finite w = true ->
+  f64_cost sc w = clampZ (-32768) 32767 (Ztrunc (rnd64 (- B2R w * B2R sc)%R)).
+Proof. exact f64_cost_real. Qed.
+(** with the scale the writers compute from ANY list of finite weights (finite, or +infinity when every weight is
+    zero or 32767 / max overflows), a larger weight never gets a larger cost *)
+Theorem c14_f64_costs_antitone : forall (ws : list f64) (w1 w2 : f64), Forall (fun w => is_finite w = true) ws ->
+  is_finite w1 = true -> is_finite w2 = true -> (B2R w1 <= B2R w2)%R ->
+  (f64_cost (f64_scale ws) w2 <= f64_cost (f64_scale ws) w1)%Z.
+Proof. exact f64_costs_antitone. Qed.
+(** every cost fits 16 bits, whatever the operands (NaN and infinities included) *)
+Theorem c14_f64_cost_i16 : forall sc w : f64, (-32768 <= f64_cost sc w <= 32767)%Z.
+Proof. exact f64_cost_i16. Qed.
+
+Example c14_f64_example :
+  let ws := map f64_of_bits [4612811918334230528; 13826050856027422720; 0]%Z in   (* 2.5, -0.5, 0.0 *)
+  map (f64_cost (f64_scale ws)) ws = [-32767; 6553; 0]%Z.
+Proof. vm_compute. reflexivity. Qed.
+
 Example c14_example : cost ((32767 # 1) / (5 # 2)) (-(5 # 2)) = 32767%Z /\ cost ((32767 # 1) / (5 # 2)) (1 # 2) = (-6553)%Z.
 Proof. vm_compute. auto. Qed.
 
 Print Assumptions c14_cost_antitone.
 Print Assumptions c14_cost_in_i16.
 Print Assumptions c14_trunc_mono.
+Print Assumptions c14_f64_cost_real.
+Print Assumptions c14_f64_costs_antitone.
+Print Assumptions c14_f64_cost_i16.
